@@ -12,7 +12,7 @@ import (
 
 func init() {
 	register(&Property{
-		ID: "C12",
+		ID:          "C12",
 		Explanation: "Pattern safety and ancestry guard of recursive remove/rename, decided from the source: (like-safety) every SQL predicate `like ?` issued by pkg/persisters whose bound argument derives from a caller-supplied name has every row leaving the function filtered in Go by strings.HasPrefix(row name, the literal prefix) (an ESCAPE clause alone is not enough: LIKE ignores ASCII case) - must-dataflow from the query to the append that builds the result; (ancestry-guard) in STFS.Rename every path to the move is across an error-returning branch whose condition relates oldname and newname by a prefix/relative-path test, not mere equality; (subtree-coverage) in Operations.Delete/Move the descendant lookup is called with the operation's own name when the entry is a directory and all rows returned join the slice the write loop ranges over.",
 		NotDecided:  "What SQLite's LIKE matches for a given tree, the textual prefix trimming of Move for odd names, symlink rows.",
 		Assumptions: []string{"strings.HasPrefix is the literal-prefix test; names in the index use '/' separators"},
@@ -51,7 +51,7 @@ func sqlTextOf(f *FuncInfo, e ast.Expr, depth int) string {
 }
 
 type likeQuery struct {
-	f    *FuncInfo   // function (or literal) containing the query call
+	f    *FuncInfo // function (or literal) containing the query call
 	call *ast.CallExpr
 	text string
 	arg  ast.Expr // the bound argument of the like predicate (best effort: argument containing "%")
